@@ -515,3 +515,237 @@ def witness(function: str, type_name: str, workdir, model, by: typing.Optional[d
             if int(lines[k][2]) != esz or got != want:
                 return {"input": {"bytes": data.hex(), "size": size}, "why": f"consumed {lines[k][2]} fields {got}; the specification gives consumed {esz} fields {want}", "evaluations": k + 1}
     return None
+
+
+# ---------------------------------------------------------------------------------------------------------------------
+# C++ leg (bounded stand-in only: the generated C++ is not under contract)
+# ---------------------------------------------------------------------------------------------------------------------
+def cpp_type(t) -> str:
+    parts = t.full_name.split(".")
+    return "::".join(parts[:-1] + [f"{parts[-1]}_{t.version.major}_{t.version.minor}"])
+
+
+def cpp_prim(dt) -> str:
+    if isinstance(dt, pydsdl.BooleanType):
+        return "bool"
+    if isinstance(dt, pydsdl.IntegerType):
+        n = 8 if dt.bit_length <= 8 else 16 if dt.bit_length <= 16 else 32 if dt.bit_length <= 32 else 64
+        return f"std::{'int' if isinstance(dt, pydsdl.SignedIntegerType) else 'uint'}{n}_t"
+    if isinstance(dt, pydsdl.FloatType):
+        return "double" if dt.bit_length == 64 else "float"
+    raise TypeError(dt)
+
+
+def cpp_lit(dt, v) -> str:
+    if isinstance(dt, pydsdl.BooleanType):
+        return "true" if v else "false"
+    if isinstance(dt, pydsdl.IntegerType):
+        if v == -(1 << 63):
+            return f"static_cast<{cpp_prim(dt)}>(-9223372036854775807LL - 1)"
+        return f"static_cast<{cpp_prim(dt)}>({v}{'LL' if v < 0 else 'ULL'})"
+    if isinstance(dt, pydsdl.FloatType):
+        return f"bits_to<{cpp_prim(dt)}>({v}ULL)"
+    raise TypeError(dt)
+
+
+def cpp_set(lang, dt, ref: str, v, out: typing.List[str], depth=0):
+    if isinstance(dt, pydsdl.PrimitiveType):
+        out.append(f"{ref} = {cpp_lit(dt, v)};")
+    elif isinstance(dt, pydsdl.FixedLengthArrayType):
+        for i, x in enumerate(v):
+            if isinstance(dt.element_type, pydsdl.PrimitiveType):
+                out.append(f"{ref}[{i}] = {cpp_lit(dt.element_type, x)};")
+            else:
+                cpp_set(lang, dt.element_type, f"{ref}[{i}]", x, out, depth + 1)
+    elif isinstance(dt, pydsdl.VariableLengthArrayType):
+        out.append(f"{ref}.clear();")
+        els = v["elements"]
+        for i in range(v["count"]):
+            x = els[i] if i < len(els) else els[-1] if els else gen_value(random.Random(i), dt.element_type, "zero")
+            if isinstance(dt.element_type, pydsdl.PrimitiveType):
+                out.append(f"{ref}.push_back({cpp_lit(dt.element_type, x)});")
+            else:
+                out.append(f"{ref}.emplace_back();")
+                cpp_set(lang, dt.element_type, f"{ref}.back()", x, out, depth + 1)
+    elif isinstance(dt, pydsdl.CompositeType):
+        cpp_set_composite(lang, dt, ref, v, out, depth + 1)
+
+
+def cpp_set_composite(lang, t, ref: str, v, out, depth=0):
+    inner = t.inner_type
+    if isinstance(inner, pydsdl.UnionType):
+        f = inner.fields[v["_tag_"]]
+        nm = cid(lang, f.name)
+        if isinstance(f.data_type, pydsdl.PrimitiveType):
+            out.append(f"{ref}.set_{nm}({cpp_lit(f.data_type, v['v'])});")
+        else:
+            out.append(f"{{ auto& u{depth}_ = {ref}.set_{nm}();")
+            cpp_set(lang, f.data_type, f"u{depth}_", v["v"], out, depth + 1)
+            out.append("}")
+    else:
+        for f in inner.fields_except_padding:
+            cpp_set(lang, f.data_type, f"{ref}.{cid(lang, f.name)}", v[f.name], out, depth)
+
+
+def cpp_dump(lang, dt, ref: str, v, out: typing.List[str], depth=0):
+    if isinstance(dt, pydsdl.BooleanType):
+        out.append(f'std::printf("%d ", ({ref}) ? 1 : 0);')
+    elif isinstance(dt, pydsdl.IntegerType):
+        out.append(f'std::printf("%lld ", static_cast<long long>({ref}));' if isinstance(dt, pydsdl.SignedIntegerType) else f'std::printf("%llu ", static_cast<unsigned long long>({ref}));')
+    elif isinstance(dt, pydsdl.FloatType):
+        out.append(f'std::printf("%llu ", to_bits({ref}));')
+    elif isinstance(dt, pydsdl.FixedLengthArrayType):
+        for i in range(dt.capacity):
+            cpp_dump(lang, dt.element_type, f"{ref}[{i}]", v[i], out, depth + 1)
+    elif isinstance(dt, pydsdl.VariableLengthArrayType):
+        out.append(f'std::printf("%llu ", static_cast<unsigned long long>({ref}.size()));')
+        out.append(f"if ({ref}.size() == {v['count']}U) {{")
+        for i in range(v["count"]):
+            cpp_dump(lang, dt.element_type, f"{ref}[{i}]", v["elements"][i], out, depth + 1)
+        out.append("}")
+    elif isinstance(dt, pydsdl.CompositeType):
+        inner = dt.inner_type
+        if isinstance(inner, pydsdl.UnionType):
+            f = inner.fields[v["_tag_"]]
+            out.append(f'std::printf("%llu ", static_cast<unsigned long long>({ref}.union_value.index()));')
+            out.append(f"if ({ref}.get_{cid(lang, f.name)}_if() != nullptr) {{")
+            cpp_dump(lang, f.data_type, f"(*{ref}.get_{cid(lang, f.name)}_if())", v["v"], out, depth + 1)
+            out.append("}")
+        else:
+            for f in inner.fields_except_padding:
+                cpp_dump(lang, f.data_type, f"{ref}.{cid(lang, f.name)}", v[f.name], out, depth)
+
+
+def _valid_tags(dt, v) -> bool:
+    if isinstance(dt, pydsdl.CompositeType):
+        inner = dt.inner_type
+        if isinstance(inner, pydsdl.UnionType):
+            return v["_tag_"] < len(inner.fields) and _valid_tags(inner.fields[v["_tag_"]].data_type, v["v"])
+        return all(_valid_tags(f.data_type, v[f.name]) for f in inner.fields_except_padding)
+    if isinstance(dt, pydsdl.FixedLengthArrayType):
+        return all(_valid_tags(dt.element_type, x) for x in v)
+    if isinstance(dt, pydsdl.VariableLengthArrayType):
+        return all(_valid_tags(dt.element_type, x) for x in v["elements"])
+    return True
+
+
+CPP_PRELUDE = r"""
+#include <cstdio>
+#include <cstdlib>
+#include <cstring>
+#include <cstdint>
+template <typename F> static F bits_to(unsigned long long b) { F f; if (sizeof(F) == 4) { std::uint32_t x = static_cast<std::uint32_t>(b); std::memcpy(&f, &x, 4); } else { std::uint64_t x = b; std::memcpy(&f, &x, 8); } return f; }
+static unsigned long long to_bits(float f) { std::uint32_t x; std::memcpy(&x, &f, 4); return x; }
+static unsigned long long to_bits(double f) { std::uint64_t x; std::memcpy(&x, &f, 8); return x; }
+"""
+
+
+def witness_cpp(t, workdir: pathlib.Path, std: str, direction: str, n_cases: int = 60):
+    """the generated C++ (de)serializer of t against the reference codec on a bounded input set (ASan/UBSan build)"""
+    from vk import render
+    lang = render.language_context("cpp", {"std": std}).get_target_language()
+    if getattr(t, "has_parent_service", False):
+        parts = t.full_namespace.split(".")
+        header = "/".join(parts[:-1] + [f"{parts[-1]}_{t.version.major}_{t.version.minor}.hpp"])
+        ctype = "::".join(parts + [f"{t.short_name}_{t.version.major}_{t.version.minor}"])
+    else:
+        header = "/".join(t.full_name.split(".")[:-1] + [f"{t.short_name}_{t.version.major}_{t.version.minor}.hpp"])
+        ctype = cpp_type(t)
+    rng = random.Random(20260927)
+    mbytes = (max(t.inner_type.bit_length_set) + 7) // 8
+    tag = cname(t) + "_" + direction
+    body: typing.List[str] = []
+    if direction == "ser":
+        cases = []
+        while len(cases) < n_cases:
+            i = len(cases)
+            v = gen_composite(rng, t, "zero" if i == 0 else "ones" if i == 1 else "rand")
+            if not _valid_tags(t, v):
+                continue  # an invalid tag cannot be constructed through the C++ API
+            cap = rng.choice([mbytes, mbytes, mbytes, mbytes + 3, max(0, mbytes - 1), 0]) if i > 2 else mbytes
+            cases.append((v, cap))
+        body.append(f"static void run(int k) {{ {ctype} obj{{}}; std::size_t cap = 0; switch (k) {{")
+        for k, (v, cap) in enumerate(cases):
+            st: typing.List[str] = []
+            cpp_set_composite(lang, t, "obj", v, st)
+            body.append(f"case {k}: {{ {' '.join(st)} cap = {cap}; break; }}")
+        body.append("default: return; } std::uint8_t* buf = static_cast<std::uint8_t*>(std::malloc(cap ? cap : 1)); std::memset(buf, 0xA5, cap ? cap : 1);"
+                    " auto r = serialize(obj, nunavut::support::bitspan{buf, cap});"
+                    ' std::printf("%d %d %zu ", k, r ? 0 : -static_cast<int>(r.error()), r ? r.value() : static_cast<std::size_t>(0));'
+                    ' if (r) { for (std::size_t i = 0; i < cap; i++) std::printf("%02x", buf[i]); } std::printf("\\n"); std::free(buf); }')
+        body.append(f"int main() {{ for (int k = 0; k < {len(cases)}; k++) {{ run(k); std::fflush(stdout); }} return 0; }}")
+    else:
+        inputs: typing.List[typing.Tuple[bytes, int]] = []
+        exp = []
+        for i in range(n_cases):
+            v = gen_composite(rng, t, "zero" if i == 0 else "ones" if i == 1 else "rand")
+            erc, eb = serialize_ref(t, v, mbytes + 8)
+            data = eb if erc == 0 else bytes(rng.getrandbits(8) for _ in range(mbytes))
+            kind = i % 4
+            if kind == 1 and data:
+                data = data[:rng.randint(0, len(data))]
+            elif kind == 2:
+                data = bytes(b ^ (1 << rng.randint(0, 7)) if rng.random() < 0.2 else b for b in data) + bytes(rng.getrandbits(8) for _ in range(rng.randint(0, 3)))
+            elif kind == 3:
+                data = bytes(rng.getrandbits(8) for _ in range(rng.randint(0, mbytes + 2)))
+            inputs.append((data, len(data)))
+        body.append(f"static void run(int k) {{ {ctype} obj{{}}; switch (k) {{")
+        for k, (data, size) in enumerate(inputs):
+            erc, ev, esz = deserialize_ref(t, data, size)
+            exp.append((erc, ev, esz))
+            arr = ", ".join(str(b) for b in data) or "0"
+            dump: typing.List[str] = []
+            if erc == 0:
+                cpp_dump(lang, t, "obj", ev, dump)
+            body.append(f"case {k}: {{ static const std::uint8_t d_[] = {{ {arr} }}; std::uint8_t* buf = static_cast<std::uint8_t*>(std::malloc({size} ? {size} : 1)); std::memcpy(buf, d_, {size});"
+                        f" auto r = deserialize(obj, nunavut::support::const_bitspan{{buf, {size}U}});"
+                        ' std::printf("%d %d %zu ", k, r ? 0 : -static_cast<int>(r.error()), r ? r.value() : static_cast<std::size_t>(0));'
+                        f" if (r) {{ {' '.join(dump)} }} std::printf(\"\\n\"); std::free(buf); break; }}")
+        body.append("default: break; } }")
+        body.append(f"int main() {{ for (int k = 0; k < {len(inputs)}; k++) {{ run(k); std::fflush(stdout); }} return 0; }}")
+    src = workdir / f"ppref_{tag}.cpp"
+    exe = workdir / f"ppref_{tag}"
+    src.write_text('#include <cassert>\n#define NUNAVUT_ASSERT(x) assert(x)\n#include "%s"\n%s\n%s' % (header, CPP_PRELUDE, "\n".join(body)))
+    c = subprocess.run(["clang++", f"-std={std.replace('-pmr', '')}", "-g", "-O0", "-fsanitize=address,undefined", "-fno-sanitize-recover=all", "-I", str(workdir), str(src), "-o", str(exe)], capture_output=True, text=True)
+    if c.returncode != 0:
+        return {"harness_error": c.stderr[:1500]}, 0
+    r = subprocess.run([str(exe)], capture_output=True, text=True, timeout=180)
+    lines = {int(l.split()[0]): l.split() for l in r.stdout.splitlines() if l.strip()}
+    if direction == "ser":
+        for k, (v, cap) in enumerate(cases):
+            erc, eb = serialize_ref(t, v, cap)
+            if k not in lines:
+                return {"input": {"object": v, "capacity_bytes": cap}, "why": f"the generated C++ serializer aborts / is stopped by the sanitizers: {r.stderr[:600]}", "evaluations": k + 1}, k + 1
+            grc, gsz = int(lines[k][1]), int(lines[k][2])
+            ghex = lines[k][3] if len(lines[k]) > 3 else ""
+            if grc != erc:
+                return {"input": {"object": v, "capacity_bytes": cap}, "why": f"C++ returns {grc}, the specification gives {erc}", "evaluations": k + 1}, k + 1
+            if erc == 0:
+                want = eb.hex() + "a5" * (cap - len(eb))
+                if gsz != len(eb) or ghex != want:
+                    return {"input": {"object": v, "capacity_bytes": cap}, "why": f"C++ size {gsz} bytes {ghex}; the specification gives size {len(eb)} bytes {want} (0xA5 = untouched)", "evaluations": k + 1}, k + 1
+        return None, len(cases)
+    for k, (data, size) in enumerate(inputs):
+        erc, ev, esz = exp[k]
+        if k not in lines:
+            return {"input": {"bytes": data.hex(), "size": size}, "why": f"the generated C++ deserializer aborts / is stopped by the sanitizers: {r.stderr[:600]}", "evaluations": k + 1}, k + 1
+        grc = int(lines[k][1])
+        if grc != erc:
+            return {"input": {"bytes": data.hex(), "size": size}, "why": f"C++ returns {grc}, the specification gives {erc}", "evaluations": k + 1}, k + 1
+        if erc == 0:
+            got = [int(x) for x in lines[k][3:]]
+            want_k = flat(t, ev)
+
+            def norm(kind, x):
+                if kind == "f32" and (x & 0x7F800000) == 0x7F800000 and (x & 0x007FFFFF):
+                    return 0x7FC00000
+                if kind == "f64" and (x & 0x7FF0000000000000) == 0x7FF0000000000000 and (x & 0x000FFFFFFFFFFFFF):
+                    return 0x7FF8000000000000
+                return x
+
+            want = [norm(*w) if isinstance(w, tuple) else w for w in want_k]
+            if len(got) == len(want_k):
+                got = [norm(w[0], g) if isinstance(w, tuple) else g for w, g in zip(want_k, got)]
+            if int(lines[k][2]) != esz or got != want:
+                return {"input": {"bytes": data.hex(), "size": size}, "why": f"C++ consumed {lines[k][2]} fields {got}; the specification gives consumed {esz} fields {want}", "evaluations": k + 1}, k + 1
+    return None, len(inputs)
